@@ -1,6 +1,7 @@
 CFG = {
     "lean_targets": ["Norad.Props.C19"],
     "audit": "Norad/Audit/C19.lean",
+    "extract": "par_sites",
     "extra_builds": {"par": ["par"]},
     "no_search": True,
     "timeout": {"quick": 1500, "thorough": 14400},
@@ -33,6 +34,11 @@ CFG = {
         "the driver additionally checks the dump order against the sorted contents keys)",
         "glif parsing other than the order of interning requests (key, name attribute, component bases) is outside this model (C02/C12); "
         "the harness checks the rest of every loaded glyph against the seed it was generated from",
+        "tools/extract_par_sites.py re-extracts every cfg(feature = \"rayon\") / cfg(not(..)) pair of src/**/*.rs on every run (tokeniser + brace matching; "
+        "un-normalised token lists, iterated expression, shared consumer statement, mentioned shared state, error form, gathered collection, one-sided items, "
+        "rayon API words); the normalisation is the Lean function ParSource.norm and part of the statement of source_par_bodies_equal_seq; a section whose anchor "
+        "is missing uses tools/pinned/ParSites.lean (evidence: extraction: pinned). Trusted in one direction: a wrong extraction can fail a theorem or fall back, "
+        "not make a false one check. The tie is syntactic: a rayon-only rewrite of a paired body, even a harmless one, fails it until the twin is edited alike",
         "kerning upconversion itself is C15; here groups and kerning are compared between the two builds only (par = seq oracle), not with a model",
         "process-wide state is probed by loading ONE other font before every load and by repeating loads 20x/500x in one process; longer histories of different fonts are not generated",
         "a name table that compares hashes instead of names is exercised for ONE hash function only (DefaultHasher::new(), the colliding pair in the name pool)",
@@ -55,6 +61,10 @@ MANIFEST = {
              "under which all workers finish, every glyph carries its contents key and its own component bases and the collected layer maps — as functions and as "
              "key-sorted lists — equal the sequential ones, from any initial name list, layer after layer); par_save_eq_seq (file writes in any order give the sequential directory when contents names "
              "every file once) with par_save_eq_seq_counterexample for a crafted contents.plist (recorded finding, reproduced on the real crate). "
+             "Source-level tie (tools/extract_par_sites.py -> Generated/ParSites.lean, every run): source_par_bodies_equal_seq (every rayon/not-rayon pair of src/ is token-equal "
+             "after the normalisation ParSource.norm), source_par_sites_complete (the pairs are exactly the model's two parallel steps over `contents` plus the four "
+             "representation pairs of the name table; no other pair, one-sided item or rayon API word), source_results_order_restored (BTreeMap / nothing gathered / sorted), "
+             "source_shared_state_matches_model (a task mentions only `names` resp. the glyph map; errors through collect::<Result> / try_for_each), source_get_is_two_step. "
              "PARTIAL: real schedules are sampled (sequential vs rayon build of the harness, pools 1/2/4/16, 20x/500x per tree), labelled as a test."),
     "design_ref": "5 / C19",
     "note": "trusted: Lean kernel + 3 standard axioms; harness/driver glue; atomicity of lock sections and file writes, rayon, rustc memory safety; real interleavings sampled, not proved",
